@@ -118,3 +118,38 @@ func RetryOutage(d *fw.Driver, res *fw.Result) error {
 	res.Eval(true, []interface{}{"retry-outage"})
 	return nil
 }
+
+// TrailingSlash: the push address may be written with a trailing slash; the upload must reach the same handler
+// (a redirect would turn the POST into a GET without a body: the handler would read an empty stream).
+func TrailingSlash(res *fw.Result) error {
+	readerHandler, readerServerOpt := httpio.ReaderParamDecoder()
+	srv := jsonrpc.NewServer(readerServerOpt)
+	srv.Register("RH", &RH{})
+	m := mux.NewRouter()
+	m.HandleFunc("/rpc/v0", srv.ServeHTTP)
+	m.HandleFunc("/rpc/streams/v0/push/{uuid}", readerHandler)
+	ts := httptest.NewServer(m)
+	defer ts.Close()
+	addr := ts.Listener.Addr().String()
+	for _, push := range []string{"http://" + addr + "/rpc/streams/v0/push/", "http://" + addr + "/rpc/streams/v0/push"} {
+		var cl retryClient
+		closer, err := jsonrpc.NewMergeClient(context.Background(), "ws://"+addr+"/rpc/v0", "RH", []interface{}{&cl}, nil, httpio.ReaderParamEncoder(push))
+		if err != nil {
+			return err
+		}
+		raw := content(131072, 5)
+		ctx, cancel := context.WithTimeout(context.Background(), 8*time.Second)
+		dg, err := cl.Consume(ctx, strings.NewReader(string(raw)), 0, len(raw))
+		cancel()
+		closer()
+		want := sha256.Sum256(raw)
+		res.Count("push-address")
+		res.Eval(true, []interface{}{"push-address", strings.HasSuffix(push, "/")})
+		if err != nil || dg.Len != len(raw) || dg.Sha != hex.EncodeToString(want[:]) {
+			res.Add(fw.Finding{Kind: "monitor", Signature: fmt.Sprintf("push address trailing-slash=%v", strings.HasSuffix(push, "/")),
+				Detail: fmt.Sprintf("the handler observed %d of the %d bytes the caller sent (error: %v)", dg.Len, len(raw), err),
+				Case:   map[string]interface{}{"scenario": "push-address", "address": strings.Replace(push, addr, "HOST", 1)}})
+		}
+	}
+	return nil
+}
